@@ -393,6 +393,11 @@ func (l *PartitionLog) uploadFlush(ctx context.Context, artifact *SegmentArtifac
 	})
 	if err := g.Wait(); err != nil {
 		l.mu.Lock()
+		// The drained batches already hold assigned offsets. Put them back so
+		// the next flush retries them; dropping them here would let a producer
+		// waiting in Flush find an empty buffer and be acknowledged for records
+		// that never reached S3.
+		l.buffer.Requeue(l.flushingBatches)
 		l.flushing = false
 		l.flushingBatches = nil
 		l.flushCond.Broadcast()
